@@ -373,8 +373,11 @@ def mk_union_far_multiconformation(near, far, listed):
         order = ctx.choice('file_order', ['near-first', 'far-first'])
         use_list = ctx.choice('titrate_only', [True, False])
         args = ['-i', listed] if use_list else []
+        # the far part keeps its own residue numbers, or is numbered like the near part (other residue types at the same numbers)
+        first_near = min(int(l[22:26]) for l in M.text(near).split('\n') if l.startswith('ATOM'))
+        fsrc = M.text(far) if ctx.choice('far_part_numbering', ['own', 'as-the-near-part']) == 'own' else M.renumber_keep_altloc(M.text(far), first_near)
         fartxt = []
-        for l in M.text(far).split('\n'):
+        for l in fsrc.split('\n'):
             if l[:6] in ('ATOM  ', 'HETATM'):
                 c = [float(l[30:38]), float(l[38:46]), float(l[46:54])]
                 c[axis] += off
@@ -478,7 +481,7 @@ def obligations(tier):
     for near, far, listed in ([('tri_ASP', 'tri_SER|BC@37', 'A:25')] if tier == 'quick' else [('tri_ASP', 'tri_SER|BC@37', 'A:25'), ('pair_GLU_ARG_TYR', 'tri_SER|BC@37', 'A:35,A:57'), ('pep8', 'tri_SER|BC@37', 'A:29,A:30')]):
         obs.append(Obligation('O3-far-part-with-alternate-locations[%s]' % near, mk_union_far_multiconformation(near, far, listed), code=['propka/atom.py:Atom.make_copy', 'propka/molecular_container.py:MolecularContainer.top_up_conformations',
                                                                                                                                     'propka/conformation_container.py:ConformationContainer.init_group', 'propka/run.py:single (whole pipeline)'],
-                              bounds='%s plus a far part (chain B, 64 / 500 / 2000 A away along x, y or z) with alternate locations B and C; both file orders; with and without -i %s (36 concrete files)' % (near, listed), kind='table-check',
+                              bounds='%s plus a far part (chain B, 64 / 500 / 2000 A away along x, y or z) with alternate locations B and C; both file orders; far part numbered on its own or like the near part; with and without -i %s (72 concrete files)' % (near, listed), kind='table-check',
                               claim_doc='the averaged records of the near part equal those of the near part alone', max_paths=200))
     # an incompletely modelled residue in each part, the first part sitting at the coordinate origin (a point that does not move with a part)
     for name in (['tri_ASP~-OD1-OD2@25'] if tier == 'quick' else ['tri_ASP~-OD1-OD2@25', 'tri_GLU~-OE1-OE2@21', 'tri_ASP~-OD2@25', 'pep8~-OD1-OD2@29']):
